@@ -1,6 +1,7 @@
 package sm
 
 import (
+	"bytes"
 	"fmt"
 	"io"
 	"os"
@@ -13,7 +14,7 @@ import (
 )
 
 func (u *Universe) isMalformed(tx Tx) bool {
-	return tx.K == "garbage" || tx.K == "wrongchain" || tx.K == "nopayload" || tx.Bad != ""
+	return tx.K == "garbage" || tx.K == "wrongchain" || tx.K == "nopayload" || tx.K == "forged" || tx.Bad != ""
 }
 
 // refusable mirrors ShuttermintMC!Refusable on the real application state.
@@ -93,6 +94,23 @@ func (u *Universe) RunPairsC10(behaviours [][]int, alphabet []Op, tw *TraceWrite
 	return st
 }
 
+// SetC13SaveMode sets the package-level save timer of the application for twin runs (every Commit,
+// or never) and returns the function that restores it. It must be called ONCE around all
+// goroutines that run RunTwinsC13 (the timer is a global of package app).
+func SetC13SaveMode() (restore func()) {
+	old := app.PersistMinDuration
+	app.PersistMinDuration = -1 * time.Hour // save on every Commit
+	if C13NoPeriodicSave {
+		// the periodic save never fires: only saves the application makes on its own account exist
+		app.PersistMinDuration = 1000 * time.Hour
+	}
+	return func() { app.PersistMinDuration = old }
+}
+
+// C13NoPeriodicSave switches the periodic save at Commit off, so that a restart uses whatever file
+// the application wrote by itself (if any): "restarts from its last saved state file".
+var C13NoPeriodicSave bool
+
 func copyFile(src, dst string) error {
 	in, err := os.Open(src)
 	if err != nil {
@@ -118,12 +136,13 @@ func (u *Universe) RunTwinsC13(behaviours [][]int, alphabet []Op, tw *TraceWrite
 		panic(err)
 	}
 	defer os.RemoveAll(dir)
-	oldMin := app.PersistMinDuration
-	app.PersistMinDuration = -1 * time.Hour // save on every Commit
-	defer func() { app.PersistMinDuration = oldMin }()
 	for bi, b := range behaviours {
 		main, o0 := u.NewReplica()
 		main.App.Gobpath = filepath.Join(dir, fmt.Sprintf("main-%d.gob", bi))
+		if C13NoPeriodicSave {
+			main.App.LastSaved = time.Now() // as after a start: do not persist immediately
+		}
+		var lastCopy []byte
 		if tw.Lines == 0 {
 			tw.Write(Line{K: "new", D: 0, Obs: []Obs{o0}})
 		} else {
@@ -154,9 +173,19 @@ func (u *Universe) RunTwinsC13(behaviours [][]int, alphabet []Op, tw *TraceWrite
 					endAt[main.App.LastBlockHeight] = d + 1
 				}
 				cp := filepath.Join(dir, fmt.Sprintf("save-%d-%d.gob", bi, d+1))
+				if C13NoPeriodicSave {
+					// only a file the application wrote by itself since the last copy is a new restart point
+					cur, rerr := os.ReadFile(main.App.Gobpath)
+					if rerr != nil || bytes.Equal(cur, lastCopy) {
+						continue
+					}
+					lastCopy = cur
+				}
 				if err := copyFile(main.App.Gobpath, cp); err == nil {
 					saves = append(saves, d+1)
 					files[d+1] = cp
+				} else if C13NoPeriodicSave {
+					// no state file yet: a restart would start from genesis; nothing to compare
 				} else {
 					// the application did not save although it committed: observable as a failed load
 					saves = append(saves, d+1)
@@ -165,7 +194,6 @@ func (u *Universe) RunTwinsC13(behaviours [][]int, alphabet []Op, tw *TraceWrite
 			}
 		}
 		for _, s := range saves {
-			tw.Write(Line{K: "pop", D: s})
 			var twin *Replica
 			load := Obs{Events: []J{}, Updates: []J{}, Begin: []J{}}
 			func() {
@@ -189,15 +217,19 @@ func (u *Universe) RunTwinsC13(behaviours [][]int, alphabet []Op, tw *TraceWrite
 			if load.St == nil {
 				load.St = J{}
 			}
-			tw.Write(Line{K: "load", D: s, Obs: []Obs{load}, Mode: "c13", Hist: b[:s]})
+			// Tendermint asks the restarted application for its height (Info) and replays the blocks
+			// after THAT height; the loaded state must be the state the uninterrupted node had at the
+			// end of that block (with a save at every Commit that is the save point itself)
+			from := s
+			if twin != nil {
+				if rep, ok := endAt[twin.App.Info(abcitypes.RequestInfo{}).LastBlockHeight]; ok {
+					from = rep
+				}
+			}
+			tw.Write(Line{K: "pop", D: from})
+			tw.Write(Line{K: "load", D: from, Obs: []Obs{load}, Mode: "c13", Hist: b[:from]})
 			if twin == nil {
 				continue
-			}
-			// Tendermint asks the restarted application for its height (Info) and replays the blocks
-			// after THAT height; a correct application reports the height of the save point
-			from := s
-			if rep, ok := endAt[twin.App.Info(abcitypes.RequestInfo{}).LastBlockHeight]; ok {
-				from = rep
 			}
 			for d := from; d < n; d++ {
 				o := alphabet[b[d]-1]
@@ -210,6 +242,9 @@ func (u *Universe) RunTwinsC13(behaviours [][]int, alphabet []Op, tw *TraceWrite
 			os.Remove(files[s])
 		}
 		os.Remove(main.App.Gobpath)
+		if len(saves) == 0 {
+			st.Behaviours++ // the uninterrupted run itself was executed and validated
+		}
 	}
 	tw.Flush()
 	st.Lines = tw.Lines
